@@ -1,8 +1,10 @@
 ------------------------------ MODULE SqlCases ------------------------------
 (* exports N statements of the SqlAst universe under the TLC seed, rendered to text *)
 EXTENDS SqlAst, Json
-RECURSIVE Stmts(_)
-Stmts(n) == IF n = 0 THEN <<>> ELSE Append(Stmts(n - 1), [id |-> n, sql |-> RQ(MkQuery(RandomElement(0..Depth)))])
+RECURSIVE StmtsFrom(_, _)
+StmtsFrom(lo, hi) == IF lo > hi THEN <<>> ELSE IF lo = hi THEN <<[id |-> lo, sql |-> RQ(MkQuery(RandomElement(0..Depth)))]>>
+                     ELSE LET mid == (lo + hi) \div 2 IN StmtsFrom(lo, mid) \o StmtsFrom(mid + 1, hi)
+Stmts(n) == StmtsFrom(1, n)
 ASSUME RenderLaws
 ASSUME ndJsonSerialize("c30_cases.ndjson", Stmts(N))
 VARIABLE x
